@@ -269,3 +269,12 @@ RULES = [
     ("C18.c", "init: write(start) < synchronize(start) < run", rule_c),
     ("C18.d", "who may call Clock::synchronize", rule_d),
 ]
+
+
+def rule_commit(ctx):
+    from . import mustpass
+    for g, floor in [('sched-queue', 25)]:
+        mustpass.commit_group(ctx, g, floor)
+
+
+RULES.append(("C18.g", "branch-commit: between the decision to perform an effect and the effect there is no way out", rule_commit))
